@@ -273,7 +273,12 @@ def apply_fault(sess, a):
                     2: ', inside a logical operator'}.get(cw, '')
     where += carrier_name
     if kind == 'absent_column':
-        ok, engine, e = expect_error(sess, f'absent column planted in {where}', lambda: run(plant(base, path, carried(['absent', 'nope']))), survey=survey)
+        absent_ = carried(['absent', 'nope'])
+        if cw == 3:
+            # the absent column as one of the terms of a linear-utility operator
+            absent_ = ['linutil', [['b0', 'nope'], ['b1', 'c0']] if salt % 2 else [['b1', 'c0'], ['b0', 'nope']]]
+            where += ', as a term of a linear-utility operator'
+        ok, engine, e = expect_error(sess, f'absent column planted in {where}', lambda: run(plant(base, path, absent_)), survey=survey)
     elif kind == 'dup_name':
         ok, engine, e = expect_error(sess, f'parameter named like column c0 planted in {where}',
                                      lambda: run(plant(base, path, carried(['betanamed', 'c0']))), survey=survey)
@@ -403,6 +408,12 @@ def apply_fault(sess, a):
         elif kind == 'text_data':
             t[t.columns[salt % len(t.columns)]] = t[t.columns[salt % len(t.columns)]].astype(object)
             t.loc[t.index[salt % len(t)], t.columns[salt % len(t.columns)]] = 'abc'
+            if (salt // 3) % 3 == 0:
+                # a column of dates (what parse_dates leaves behind): not numbers either, and not stored as objects
+                import pandas as pd
+                t = sess.tables[dbi].copy()
+                t[t.columns[salt % len(t.columns)]] = pd.to_datetime(['2024-01-01'] * len(t)) + pd.to_timedelta(range(len(t)), unit='D')
+                kind = 'text_data (a column of dates)'
             fn = lambda: run(base, data=db.Database('bad', t))
         elif salt % 2:
             fn = lambda: run(base, data=db.Database('bad', t.iloc[0:0]))
